@@ -79,6 +79,9 @@ def head(n):
             text += '{a{%s}b{{c}}}' % site       # numbering inside balanced inner braces (`li{{{item$}}}` for a template language)
         else:
             text += '{%s}' % site
+    if STYLE.get('ph') and n.mark % 2 == 0:
+        # a wrap placeholder next to the counters (the call then supplies a text): reading `$#` must not disturb the numbering that follows it
+        parts = '[w%d=$#]' % n.mark + parts + ('[v%d=$#]' % n.mark if n.mark % 4 == 0 else '')
     s = name + '.m%d' % n.mark + ids + parts + text
     if n.rep is not None:
         s += '*%d' % n.rep
@@ -176,7 +179,7 @@ class Mon:
         self.guard_last = None
         self.depth_in = []
 
-    def check(self, abbr, expected, truncated, max_repeat, cls, syntax=None):
+    def check(self, abbr, expected, truncated, max_repeat, cls, syntax=None, text=None):
         ctx = self.ctx
         ctx.ev(cls)
         cfg = {'options': {'output.format': False}}
@@ -184,7 +187,9 @@ class Mon:
             cfg['syntax'] = syntax
         if max_repeat is not None:
             cfg['maxRepeat'] = max_repeat
-        case = {'abbr': abbr, 'maxRepeat': max_repeat, 'expected': expected, 'truncated': truncated, 'syntax': syntax}
+        if text is not None:
+            cfg['text'] = text
+        case = {'abbr': abbr, 'maxRepeat': max_repeat, 'expected': expected, 'truncated': truncated, 'syntax': syntax, 'text': text}
         self.guard_last = None
         r = core.call(self.expand, abbr, cfg)
         ctx.mon('oracle:copies-and-counters')
@@ -460,12 +465,18 @@ def run_shard(desc, ctx):
                 done += 1
                 m = rng.choice([None, None, None, None, None, 1, 2, 3, 5, 8, 13, 21, 50, 99, 100, 250])
                 jsx = rng.random() < 0.15
+                ph = rng.random() < 0.2
                 STYLE['cap'] = jsx
+                STYLE['ph'] = ph
                 try:
                     abbr, exp, trunc = tree_case(nodes, m)
                 finally:
                     STYLE['cap'] = False
-                mon.check(abbr, exp, trunc, m, 'random:limit' if m else 'random', 'jsx' if jsx else rng.choice([None, None, 'xml', 'vue']))
+                    STYLE['ph'] = False
+                if ph:
+                    ctx.ev('random:with-wrap-placeholders')
+                mon.check(abbr, exp, trunc, m, 'random:limit' if m else 'random', 'jsx' if jsx else rng.choice([None, None, 'xml', 'vue']),
+                          text=rng.choice(['w', ['w'], 'two words']) if ph and '$#' in abbr else None)
                 ctx.state('syntax', 'jsx+capitalised' if jsx else 'other')
     finally:
         pr.uninstall()
@@ -483,7 +494,7 @@ def replay(case, ctx):
         if r[0] == 'exc' or direct_shape(r[1]) != case['expected_shape']:
             ctx.violation('copy-count', case, {'entry': 'emmet.parse_markup_abbreviation'})
         return
-    Mon(ctx).check(case['abbr'], case['expected'], case['truncated'], case['maxRepeat'], 'replay', case.get('syntax'))
+    Mon(ctx).check(case['abbr'], case['expected'], case['truncated'], case['maxRepeat'], 'replay', case.get('syntax'), text=case.get('text'))
 
 
 CLASSIFIERS = {}
